@@ -75,6 +75,32 @@ Theorem C07_uper_enum_known_item :
 Proof. exact uper_enum_known_item. Qed.
 Print Assumptions C07_uper_enum_known_item.
 
+From Asn1V Require Oer.OerExt.
+
+(** OER SEQUENCE/SET: a V2 encoding decoded by V1 (additions appended at the node).
+    (statement = the type of [Asn1V.Oer.OerExt.oer_forward_partial]; written out in that file) *)
+Theorem C07_oer_forward_partial : ltac:(let T := type of Asn1V.Oer.OerExt.oer_forward_partial in exact T).
+Proof. exact Asn1V.Oer.OerExt.oer_forward_partial. Qed.
+Print Assumptions C07_oer_forward_partial.
+
+(** OER SEQUENCE/SET: a V1 encoding decoded by V2.
+    (statement = the type of [Asn1V.Oer.OerExt.oer_backward_partial]; written out in that file) *)
+Theorem C07_oer_backward_partial : ltac:(let T := type of Asn1V.Oer.OerExt.oer_backward_partial in exact T).
+Proof. exact Asn1V.Oer.OerExt.oer_backward_partial. Qed.
+Print Assumptions C07_oer_backward_partial.
+
+(** OER ENUMERATED: an item only V2 knows decodes as absent under V1.
+    (statement = the type of [Asn1V.Oer.OerExt.oer_forward_enum_new_item]; written out in that file) *)
+Theorem C07_oer_forward_enum_new_item : ltac:(let T := type of Asn1V.Oer.OerExt.oer_forward_enum_new_item in exact T).
+Proof. exact Asn1V.Oer.OerExt.oer_forward_enum_new_item. Qed.
+Print Assumptions C07_oer_forward_enum_new_item.
+
+(** OER CHOICE: an alternative only V2 knows is skipped and reported as absent by V1.
+    (statement = the type of [Asn1V.Oer.OerExt.oer_forward_choice_new_alternative]; written out in that file) *)
+Theorem C07_oer_forward_choice_new_alternative : ltac:(let T := type of Asn1V.Oer.OerExt.oer_forward_choice_new_alternative in exact T).
+Proof. exact Asn1V.Oer.OerExt.oer_forward_choice_new_alternative. Qed.
+Print Assumptions C07_oer_forward_choice_new_alternative.
+
 Local Open Scope string_scope.
 (** Non-vacuity: V1 = { a, ..., x }, V2 = { a, ..., x, [[ g, h ]], y }; a V2
     value with all additions present decodes under V1 to { a, x } and the
